@@ -57,6 +57,17 @@ def check_roundtrip(case):
     ok, again = call(p.to_str, True, u, p.is_bounceable, p.is_test_only)
     if not ok or again != exp:
         return Fail('to_str/rerender-differs', f'{again!r} != {exp}')
+    # the same object rendered in every other form afterwards (no result carried over from an earlier call), and the first
+    # form once more
+    for v in list(range(8)) + [None]:
+        bb, tt, uu = (b, t, u) if v is None else (bool(v & 1), bool(v & 2), bool(v & 4))
+        ok, txt = call(base.to_str, True, uu, bb, tt)
+        want = refaddr.friendly(wc, acc, bb, tt, uu)
+        if not ok or txt != want:
+            return Fail('to_str/depends-on-earlier-calls', f'after other renderings of the same object: {txt!r} != {want}')
+        ok, p2 = call(Address, want)
+        if not ok or not _addr_eq(p2, wc, acc) or bool(p2.is_bounceable) != bb or bool(p2.is_test_only) != tt:
+            return Fail('parse/depends-on-earlier-calls', f'{want}: {p2!r}')
     return None
 
 
